@@ -3,7 +3,7 @@
    exactly the tables of Micro.v, whose interpretations are — for every frame — the member
    functions of Model.v that the theorems of Properties.v are about (the link lemmas of MicroProofs.v). *)
 From Common Require Import Prelude.
-From C09 Require Import Model Spec Micro MicroProofs Proofs2 FactsCheck.
+From C09 Require Import Model Spec Env Micro MicroProofs Proofs2 FactsCheck.
 Local Open Scope N_scope.
 
 (* every Optional member performs the model's storage-lifetime micro-operations, in its order,
@@ -78,3 +78,17 @@ Theorem optional_aligned_from_source : forall alignT sizeT,
   al mod alignT = 0 /\ off mod alignT = 0 /\ sz mod al = 0 /\ sizeT + 1 <= sz.
 Proof. rewrite FactsCheck.match_lay. exact Proofs2.layout_aligned. Qed.
 Print Assumptions optional_aligned_from_source.
+
+(* getEnvVar<int|float|std::string>: getenv, found = (str != nullptr), engaged-with-conversion or empty *)
+Theorem facts_getenv_specialisations : forall k, gen_env k = model_env k.
+Proof. exact FactsCheck.match_env. Qed.
+Print Assumptions facts_getenv_specialisations.
+
+Theorem facts_getenv_generic_empty : gen_env_generic_empty = true.
+Proof. exact FactsCheck.match_env_generic. Qed.
+Print Assumptions facts_getenv_generic_empty.
+
+(* rktraits.h: which payloads count as having operator==, and the isSameImpl pair selected by it *)
+Theorem facts_traits_operator_equals : gen_traits = model_traits.
+Proof. exact FactsCheck.match_traits. Qed.
+Print Assumptions facts_traits_operator_equals.
